@@ -288,7 +288,10 @@ func c11Run(k c11Kind, db *badger.DB, veto bool, h []c11Txn, emit func(desc stri
 		if err := rt.Close(); err != nil {
 			bad(fmt.Sprintf("txn %d", ti), "Close failed: %v", err)
 		}
-		if err := rt.Close(); err == nil {
+		var err2 error
+		if pn := safe(func() { err2 = rt.Close() }); pn != "" {
+			bad(fmt.Sprintf("txn %d", ti), "second Close panicked: %s", pn)
+		} else if err2 == nil {
 			bad(fmt.Sprintf("txn %d", ti), "second Close did not fail")
 		}
 	}
